@@ -2,6 +2,7 @@
    xsync.Lazy (Conc/Future.v).  Each system has one combined invariant of every state reachable by
    [qstep] from [init], for every scenario configuration.  Stdlib only, no axioms. *)
 From Juniper Require Import Common.Base Conc.GoLTS Conc.Watch Conc.Future.
+From Juniper Require Conc.GoLTSProofs.
 From Coq Require Import Arith PeanoNat.
 Local Open Scope nat_scope.
 
@@ -843,26 +844,27 @@ Import Fut.
 
 Definition is_fill (k : kind) : bool := match k with KFill _ => true | _ => false end.
 
-(* what a goroutine's program counter promises about the future's fields *)
-Definition th_ok (s : st) (x : thread) : Prop :=
+(* what a goroutine's program counter promises about the future's fields ([t] is its own index) *)
+Definition th_ok (s : st) (t : nat) (x : thread) : Prop :=
   match t_pc x with
-  | PIdle | PGate | PReady => is_fill (t_kind x) = true -> fclosed s = false
-  | PFillCalled => is_fill (t_kind x) = true /\ fclosed s = false
-  | PFillWritten => t_kind x = KFill (fx s) /\ fclosed s = false
-  | PFillClosed => t_kind x = KFill (fx s) /\ fclosed s = true
-  | PFillPanic => False
-  | PWaitCalled | PCtxCalled => is_fill (t_kind x) = false
+  | PIdle | PGate | PReady => fwinner s <> Some t
+  | PFillCalled => is_fill (t_kind x) = true /\ fwinner s <> Some t
+  | PFillWon => is_fill (t_kind x) = true /\ fwinner s = Some t /\ fclosed s = false
+  | PFillWritten => t_kind x = KFill (fx s) /\ fwinner s = Some t /\ fclosed s = false
+  | PFillClosed => t_kind x = KFill (fx s) /\ fwinner s = Some t /\ fclosed s = true
+  | PFillPanic => is_fill (t_kind x) = true /\ fwinner s <> Some t /\ ffilled s = true
+  | PWaitCalled | PCtxCalled | PCtxSel => is_fill (t_kind x) = false
   | PRecvd => fclosed s = true /\ is_fill (t_kind x) = false
   | PRead w => fclosed s = true /\ w = fx s /\ is_fill (t_kind x) = false
   | PCtxErr => exists c, t_kind x = KWaitCtx c /\ ctx_done s c = true
-  | PDone => forall v, t_kind x = KFill v -> fx s = v /\ fclosed s = true
+  | PDone => fwinner s = Some t -> t_kind x = KFill (fx s) /\ fclosed s = true
   end.
 
 Record FInv (s : st) : Prop := mkFInv {
-  f_one : forall t t' x x', nth_error (ths s) t = Some x -> nth_error (ths s) t' = Some x' ->
-                            is_fill (t_kind x) = true -> is_fill (t_kind x') = true -> t = t';
-  f_ths : forall t x, nth_error (ths s) t = Some x -> th_ok s x;
-  f_closed : fclosed s = true -> exists t x, nth_error (ths s) t = Some x /\ is_fill (t_kind x) = true
+  f_ths : forall t x, nth_error (ths s) t = Some x -> th_ok s t x;
+  f_win_some : forall tw, fwinner s = Some tw ->
+                 ffilled s = true /\ exists xw, nth_error (ths s) tw = Some xw /\ is_fill (t_kind xw) = true;
+  f_win_none : fwinner s = None -> ffilled s = false /\ fclosed s = false
 }.
 
 (* the scenario contains at most one Fill call (Fill's documented precondition) *)
@@ -870,27 +872,43 @@ Definition at_most_one_fill (cfg : list (option nat * kind)) : Prop :=
   forall i j p q, nth_error cfg i = Some p -> nth_error cfg j = Some q ->
                   is_fill (snd p) = true -> is_fill (snd q) = true -> i = j.
 
-(* transitions of one goroutine that do not write the future's fields *)
-Inductive plain (s : st) (x : thread) : pc -> Prop :=
-| P_spawn : t_pc x = PIdle -> plain s x PGate
-| P_callfill : ready s x = true -> is_fill (t_kind x) = true -> plain s x PFillCalled
-| P_retfill : t_pc x = PFillClosed -> plain s x PDone
-| P_retpanic : t_pc x = PFillPanic -> plain s x PDone
-| P_callwait : is_fill (t_kind x) = false -> plain s x PWaitCalled
-| P_callctx : is_fill (t_kind x) = false -> plain s x PCtxCalled
-| P_recv : t_pc x = PWaitCalled \/ t_pc x = PCtxCalled -> fclosed s = true -> plain s x PRecvd
-| P_selctx c : t_kind x = KWaitCtx c -> ctx_done s c = true -> plain s x PCtxErr
-| P_read : t_pc x = PRecvd -> plain s x (PRead (fx s))
-| P_retw : is_fill (t_kind x) = false -> plain s x PDone.
+(* the fields of the future are unchanged *)
+Definition same_fut (s s' : st) : Prop :=
+  fx s' = fx s /\ fclosed s' = fclosed s /\ ffilled s' = ffilled s /\ fwinner s' = fwinner s.
 
-Inductive feff (s s' : st) (x : thread) : pc -> Prop :=
-| FE_plain p' : fx s' = fx s -> fclosed s' = fclosed s -> plain s x p' -> feff s s' x p'
-| FE_write v : t_pc x = PFillCalled -> t_kind x = KFill v -> fx s' = v -> fclosed s' = fclosed s ->
-               feff s s' x PFillWritten
+Lemma same_fut_refl s : same_fut s s.
+Proof. unfold same_fut. auto. Qed.
+
+(* transitions of one goroutine that do not write the future's fields (with their labels) *)
+Inductive plain (s : st) (t : nat) (x : thread) : lab -> pc -> Prop :=
+| P_spawn : t_pc x = PIdle -> plain s t x (LSpawn t) PGate
+| P_callfill v : ready s x = true -> t_kind x = KFill v -> plain s t x (LCallFill t v) PFillCalled
+| P_caslose : t_pc x = PFillCalled -> ffilled s = true -> plain s t x (TCas t) PFillPanic
+| P_retfill : t_pc x = PFillClosed -> plain s t x (LRetFill t) PDone
+| P_retpanic : t_pc x = PFillPanic -> plain s t x (LPanicFill t) PDone
+| P_callwait : ready s x = true -> t_kind x = KWait -> plain s t x (LCallWait t) PWaitCalled
+| P_callctx c : ready s x = true -> t_kind x = KWaitCtx c -> plain s t x (LCallWaitCtx t c) PCtxCalled
+| P_recv : t_pc x = PWaitCalled -> fclosed s = true -> plain s t x (TRecv t) PRecvd
+| P_pollf : t_pc x = PCtxCalled -> fclosed s = true -> plain s t x (TPollF t) PRecvd
+| P_polld : t_pc x = PCtxCalled -> fclosed s = false -> plain s t x (TPollD t) PCtxSel
+| P_self : t_pc x = PCtxSel -> fclosed s = true -> plain s t x (TSelF t) PRecvd
+| P_selctx c : t_pc x = PCtxSel -> t_kind x = KWaitCtx c -> ctx_done s c = true ->
+               plain s t x (TSelCtx t) PCtxErr
+| P_read : t_pc x = PRecvd -> plain s t x (TRead t) (PRead (fx s))
+| P_retwait v : t_pc x = PRead v -> t_kind x = KWait -> plain s t x (LRetWait t v) PDone
+| P_retctx v c : t_pc x = PRead v -> t_kind x = KWaitCtx c -> plain s t x (LRetWaitCtx t v false) PDone
+| P_reterr c : t_pc x = PCtxErr -> t_kind x = KWaitCtx c -> plain s t x (LRetWaitCtx t 0%Z true) PDone.
+
+Inductive feff (s s' : st) (t : nat) (x : thread) : lab -> pc -> Prop :=
+| FE_plain l p' : same_fut s s' -> plain s t x l p' -> feff s s' t x l p'
+| FE_caswin : t_pc x = PFillCalled -> ffilled s = false -> ffilled s' = true -> fwinner s' = Some t ->
+              fx s' = fx s -> fclosed s' = fclosed s -> feff s s' t x (TCas t) PFillWon
+| FE_write v : t_pc x = PFillWon -> t_kind x = KFill v -> fx s' = v -> fclosed s' = fclosed s ->
+               ffilled s' = ffilled s -> fwinner s' = fwinner s -> feff s s' t x (TWrite t) PFillWritten
 | FE_close : t_pc x = PFillWritten -> fclosed s = false -> fx s' = fx s -> fclosed s' = true ->
-             feff s s' x PFillClosed
-| FE_panic : t_pc x = PFillWritten -> fclosed s = true -> fx s' = fx s -> fclosed s' = fclosed s ->
-             feff s s' x PFillPanic.
+             ffilled s' = ffilled s -> fwinner s' = fwinner s -> feff s s' t x (TCloseF t) PFillClosed
+| FE_panic : t_pc x = PFillWritten -> fclosed s = true -> same_fut s s' ->
+             feff s s' t x (TCloseF t) PFillPanic.
 
 Lemma ctx_done_upd s c st' d :
   ctx_done s d = true -> nth_error (ctxs s) c <> Some CDone ->
@@ -900,257 +918,489 @@ Proof.
   destruct (nth_error (ctxs s) d) as [[| |]|]; try discriminate. congruence.
 Qed.
 
-Lemma fstep_cases s l s' :
-  step s l = Some s' ->
-  (ths s' = ths s /\ fx s' = fx s /\ fclosed s' = fclosed s /\
-   (forall c, ctx_done s c = true -> ctx_done s' c = true)) \/
-  (exists t x p', nth_error (ths s) t = Some x /\ ths s' = upd (ths s) t (set_pc x p') /\
-                  ctxs s' = ctxs s /\ feff s s' x p').
+Definition frame (s s' : st) : Prop :=
+  ths s' = ths s /\ same_fut s s' /\ (forall c, ctx_done s c = true -> ctx_done s' c = true).
+
+Definition thread_step (s s' : st) (l : lab) : Prop :=
+  exists t x p', nth_error (ths s) t = Some x /\ ths s' = upd (ths s) t (set_pc x p') /\
+                 ctxs s' = ctxs s /\ feff s s' t x l p'.
+
+Lemma fstep_cases s l s' : step s l = Some s' -> frame s s' \/ thread_step s s' l.
 Proof.
   intros H.
-  assert (Hplain : forall t x p', getth s t = Some x -> setth s t (set_pc x p') = s' -> plain s x p' ->
-            exists t x p', nth_error (ths s) t = Some x /\ ths s' = upd (ths s) t (set_pc x p') /\
-                           ctxs s' = ctxs s /\ feff s s' x p').
+  assert (Hplain : forall t x p', getth s t = Some x -> setth s t (set_pc x p') = s' -> plain s t x l p' ->
+                                  thread_step s s' l).
   { intros t x p' Hx <- Hp. exists t, x, p'. split; [exact Hx|]. split; [reflexivity|]. split; [reflexivity|].
-    apply FE_plain; auto. }
-  destruct l as [t|g|c| |t v|t|t|t|t v|t c|t v e|t|t|t|t|t|t|c]; simpl in H; try discriminate.
+    apply FE_plain; [unfold same_fut; simpl; auto | exact Hp]. }
+  unfold frame, same_fut.
+  destruct l as [t|g|c| |t v|t|t|t|t v|t c|t v e|t|t|t|t|t|t|t|t|t|c]; simpl in H; try discriminate.
   - (* LSpawn *) destruct (getth s t) as [x|] eqn:Hx; [|discriminate].
-    destruct (t_pc x) eqn:Hp; try discriminate. injection H as E. right. eapply Hplain; eauto. constructor; exact Hp.
-  - (* LRelease *) destruct (g <? length (gates s)); [|discriminate]. inversion H; subst s'. left. simpl. auto.
-  - (* LCancel *) destruct (nth_error (ctxs s) c) as [[| |]|] eqn:Hc; try discriminate; inversion H; subst s'; left; simpl; auto.
-    repeat split; auto. intros d Hd. unfold ctx_done at 1. simpl. apply ctx_done_upd; [exact Hd | congruence].
+    destruct (t_pc x) eqn:Hp; try discriminate. injection H as E. right. eapply Hplain; eauto.
+    apply P_spawn; exact Hp.
+  - (* LRelease *) destruct (g <? length (gates s)); [|discriminate]. inversion H; subst s'. left. simpl. auto 6.
+  - (* LCancel *)
+    destruct (nth_error (ctxs s) c) as [[| |]|] eqn:Hc; try discriminate; inversion H; subst s'; left; simpl; auto 6.
+    split; [reflexivity|]. split; [auto|]. intros d Hd. unfold ctx_done at 1. simpl.
+    apply ctx_done_upd; [exact Hd | congruence].
   - (* LCallFill *) destruct (getth s t) as [x|] eqn:Hx; [|discriminate].
-    destruct (t_kind x) eqn:Hk; try discriminate. destruct (ready s x && Z.eqb v v0) eqn:Hr; [|discriminate].
-    apply andb_true_iff in Hr. destruct Hr as [Hr _].
-    injection H as E. right. eapply Hplain; eauto. constructor; [exact Hr | rewrite Hk; reflexivity].
+    destruct (t_kind x) as [v'| |c'] eqn:Hk; try discriminate.
+    destruct (ready s x && Z.eqb v v') eqn:Hr; [|discriminate].
+    apply andb_true_iff in Hr. destruct Hr as [Hr Hv]. apply Z.eqb_eq in Hv. subst v'.
+    injection H as E. right. eapply Hplain; eauto. apply P_callfill; [exact Hr | exact Hk].
   - (* LRetFill *) destruct (getth s t) as [x|] eqn:Hx; [|discriminate].
-    destruct (t_pc x) eqn:Hp; try discriminate. injection H as E. right. eapply Hplain; eauto. apply P_retfill; exact Hp.
+    destruct (t_pc x) eqn:Hp; try discriminate. injection H as E. right. eapply Hplain; eauto.
+    apply P_retfill; exact Hp.
   - (* LPanicFill *) destruct (getth s t) as [x|] eqn:Hx; [|discriminate].
-    destruct (t_pc x) eqn:Hp; try discriminate. injection H as E. right. eapply Hplain; eauto. apply P_retpanic; exact Hp.
+    destruct (t_pc x) eqn:Hp; try discriminate. injection H as E. right. eapply Hplain; eauto.
+    apply P_retpanic; exact Hp.
   - (* LCallWait *) destruct (getth s t) as [x|] eqn:Hx; [|discriminate].
-    destruct (t_kind x) eqn:Hk; try discriminate. destruct (ready s x); [|discriminate].
-    injection H as E. right. eapply Hplain; eauto. apply P_callwait. rewrite Hk; reflexivity.
+    destruct (t_kind x) as [v'| |c'] eqn:Hk; try discriminate. destruct (ready s x) eqn:Hr; [|discriminate].
+    injection H as E. right. eapply Hplain; eauto. apply P_callwait; [exact Hr | exact Hk].
   - (* LRetWait *) destruct (getth s t) as [x|] eqn:Hx; [|discriminate].
-    destruct (t_pc x) eqn:Hp; try discriminate. destruct (t_kind x) eqn:Hk; try discriminate.
-    destruct (Z.eqb v v0); [|discriminate].
-    injection H as E. right. eapply Hplain; eauto. apply P_retw. rewrite Hk; reflexivity.
+    destruct (t_pc x) as [| | | | | | | | | | | |w| |] eqn:Hp; try discriminate.
+    destruct (t_kind x) as [v'| |c'] eqn:Hk; try discriminate.
+    destruct (Z.eqb v w) eqn:Hv; [|discriminate]. apply Z.eqb_eq in Hv. subst w.
+    injection H as E. right. eapply Hplain; eauto. apply P_retwait; [exact Hp | exact Hk].
   - (* LCallWaitCtx *) destruct (getth s t) as [x|] eqn:Hx; [|discriminate].
-    destruct (t_kind x) eqn:Hk; try discriminate. destruct (ready s x && Nat.eqb c c0); [|discriminate].
-    injection H as E. right. eapply Hplain; eauto. apply P_callctx. rewrite Hk; reflexivity.
+    destruct (t_kind x) as [v'| |c'] eqn:Hk; try discriminate.
+    destruct (ready s x && Nat.eqb c c') eqn:Hr; [|discriminate].
+    apply andb_true_iff in Hr. destruct Hr as [Hr Hc]. apply Nat.eqb_eq in Hc. subst c'.
+    injection H as E. right. eapply Hplain; eauto. apply P_callctx; [exact Hr | exact Hk].
   - (* LRetWaitCtx *) destruct (getth s t) as [x|] eqn:Hx; [|discriminate].
-    destruct (t_pc x) eqn:Hp; try discriminate; destruct (t_kind x) eqn:Hk; try discriminate.
-    + destruct (Z.eqb v v0 && negb e); [|discriminate].
-      injection H as E. right. eapply Hplain; eauto. apply P_retw. rewrite Hk; reflexivity.
-    + destruct (Z.eqb v 0%Z && e); [|discriminate].
-      injection H as E. right. eapply Hplain; eauto. apply P_retw. rewrite Hk; reflexivity.
+    destruct (t_pc x) as [| | | | | | | | | | | |w| |] eqn:Hp; try discriminate;
+      destruct (t_kind x) as [v'| |c'] eqn:Hk; try discriminate.
+    + destruct (Z.eqb v w && negb e) eqn:Hv; [|discriminate].
+      apply andb_true_iff in Hv. destruct Hv as [Hv He]. apply Z.eqb_eq in Hv. subst w.
+      apply negb_true_iff in He. subst e.
+      injection H as E. right. eapply Hplain; eauto. eapply P_retctx; [exact Hp | exact Hk].
+    + destruct (Z.eqb v 0%Z && e) eqn:Hv; [|discriminate].
+      apply andb_true_iff in Hv. destruct Hv as [Hv He]. apply Z.eqb_eq in Hv. subst v e.
+      injection H as E. right. eapply Hplain; eauto. eapply P_reterr; [exact Hp | exact Hk].
+  - (* TCas *) destruct (getth s t) as [x|] eqn:Hx; [|discriminate].
+    destruct (t_pc x) eqn:Hp; try discriminate. destruct (ffilled s) eqn:Hfi.
+    + injection H as E. right. eapply Hplain; eauto. apply P_caslose; [exact Hp | exact Hfi].
+    + inversion H; subst s'. right. exists t, x, PFillWon. split; [exact Hx|]. split; [reflexivity|].
+      split; [reflexivity|]. apply FE_caswin; simpl; auto.
   - (* TWrite *) destruct (getth s t) as [x|] eqn:Hx; [|discriminate].
-    destruct (t_pc x) eqn:Hp; try discriminate. destruct (t_kind x) eqn:Hk; try discriminate.
+    destruct (t_pc x) eqn:Hp; try discriminate. destruct (t_kind x) as [v'| |c'] eqn:Hk; try discriminate.
     inversion H; subst s'. right. exists t, x, PFillWritten. split; [exact Hx|]. split; [reflexivity|].
-    split; [reflexivity|]. eapply FE_write; eauto.
+    split; [reflexivity|]. eapply FE_write; simpl; eauto.
   - (* TCloseF *) destruct (getth s t) as [x|] eqn:Hx; [|discriminate].
     destruct (t_pc x) eqn:Hp; try discriminate. destruct (fclosed s) eqn:Hcl; inversion H; subst s'; right.
     + exists t, x, PFillPanic. split; [exact Hx|]. split; [reflexivity|]. split; [reflexivity|].
-      apply FE_panic; auto.
+      apply FE_panic; [exact Hp | exact Hcl | unfold same_fut; simpl; auto].
     + exists t, x, PFillClosed. split; [exact Hx|]. split; [reflexivity|]. split; [reflexivity|].
-      apply FE_close; auto.
+      apply FE_close; simpl; auto.
   - (* TRecv *) destruct (getth s t) as [x|] eqn:Hx; [|discriminate].
     destruct (t_pc x) eqn:Hp; try discriminate. destruct (fclosed s) eqn:Hcl; [|discriminate].
-    injection H as E. right. eapply Hplain; eauto. apply P_recv; auto.
+    injection H as E. right. eapply Hplain; eauto. apply P_recv; [exact Hp | exact Hcl].
+  - (* TPollF *) destruct (getth s t) as [x|] eqn:Hx; [|discriminate].
+    destruct (t_pc x) eqn:Hp; try discriminate. destruct (fclosed s) eqn:Hcl; [|discriminate].
+    injection H as E. right. eapply Hplain; eauto. apply P_pollf; [exact Hp | exact Hcl].
+  - (* TPollD *) destruct (getth s t) as [x|] eqn:Hx; [|discriminate].
+    destruct (t_pc x) eqn:Hp; try discriminate. destruct (fclosed s) eqn:Hcl; [discriminate|].
+    injection H as E. right. eapply Hplain; eauto. apply P_polld; [exact Hp | exact Hcl].
   - (* TSelF *) destruct (getth s t) as [x|] eqn:Hx; [|discriminate].
     destruct (t_pc x) eqn:Hp; try discriminate. destruct (fclosed s) eqn:Hcl; [|discriminate].
-    injection H as E. right. eapply Hplain; eauto. apply P_recv; auto.
+    injection H as E. right. eapply Hplain; eauto. apply P_self; [exact Hp | exact Hcl].
   - (* TSelCtx *) destruct (getth s t) as [x|] eqn:Hx; [|discriminate].
-    destruct (t_pc x) eqn:Hp; try discriminate. destruct (t_kind x) eqn:Hk; try discriminate.
-    destruct (ctx_done s c) eqn:Hd; [|discriminate].
-    injection H as E. right. eapply Hplain; eauto. eapply P_selctx; eauto.
+    destruct (t_pc x) eqn:Hp; try discriminate. destruct (t_kind x) as [v'| |c'] eqn:Hk; try discriminate.
+    destruct (ctx_done s c') eqn:Hd; [|discriminate].
+    injection H as E. right. eapply Hplain; eauto. eapply P_selctx; [exact Hp | exact Hk | exact Hd].
   - (* TRead *) destruct (getth s t) as [x|] eqn:Hx; [|discriminate].
     destruct (t_pc x) eqn:Hp; try discriminate.
     injection H as E. right. eapply Hplain; eauto. apply P_read; exact Hp.
-  - (* TCancelEff *) destruct (nth_error (ctxs s) c) as [[| |]|] eqn:Hc; try discriminate; inversion H; subst s'; left; simpl.
-    repeat split; auto. intros d Hd. unfold ctx_done at 1. simpl. apply ctx_done_upd; [exact Hd | congruence].
+  - (* TCancelEff *)
+    destruct (nth_error (ctxs s) c) as [[| |]|] eqn:Hc; try discriminate; inversion H; subst s'; left; simpl.
+    split; [reflexivity|]. split; [auto|]. intros d Hd. unfold ctx_done at 1. simpl.
+    apply ctx_done_upd; [exact Hd | congruence].
 Qed.
 
-Lemma fqstep_cases s l s' :
-  qstep s l = Some s' ->
-  (ths s' = ths s /\ fx s' = fx s /\ fclosed s' = fclosed s /\
-   (forall c, ctx_done s c = true -> ctx_done s' c = true)) \/
-  (exists t x p', nth_error (ths s) t = Some x /\ ths s' = upd (ths s) t (set_pc x p') /\
-                  ctxs s' = ctxs s /\ feff s s' x p').
+Lemma fqstep_cases s l s' : qstep s l = Some s' -> frame s s' \/ thread_step s s' l.
 Proof.
   intros H.
   assert (Hl : l = LQuiesce \/ qstep s l = step s l) by (destruct l; auto).
   destruct Hl as [->|E].
-  - simpl in H. destruct (quiescent s); [|discriminate]. inversion H; subst. left; auto.
+  - simpl in H. destruct (quiescent s); [|discriminate]. inversion H; subst. left.
+    split; [reflexivity|]. split; [apply same_fut_refl | auto].
   - rewrite E in H. apply fstep_cases in H. exact H.
 Qed.
 
-Lemma th_ok_ext s s' x :
-  fx s' = fx s -> fclosed s' = fclosed s -> (forall c, ctx_done s c = true -> ctx_done s' c = true) ->
-  th_ok s x -> th_ok s' x.
+Lemma th_ok_ext s s' t x :
+  same_fut s s' -> (forall c, ctx_done s c = true -> ctx_done s' c = true) ->
+  th_ok s t x -> th_ok s' t x.
 Proof.
-  intros Hf Hc Hd. unfold th_ok. rewrite Hf, Hc. destruct (t_pc x); auto.
+  intros (Hf & Hc & Hfi & Hw) Hd. unfold th_ok. rewrite Hf, Hc, Hfi, Hw. destruct (t_pc x); auto.
   intros (c & Hk & Hdc). exists c. auto.
 Qed.
 
-Lemma plain_ok s x p' : th_ok s x -> plain s x p' -> th_ok s (set_pc x p').
+Lemma ready_pc s x : ready s x = true -> t_pc x = PReady \/ t_pc x = PGate.
+Proof. unfold ready. destruct (t_pc x); intros H; try discriminate H; auto. Qed.
+
+Lemma plain_ok s t x l p' :
+  (is_fill (t_kind x) = false -> fwinner s <> Some t) ->
+  th_ok s t x -> plain s t x l p' -> th_ok s t (set_pc x p').
 Proof.
-  intros Hok Hp. unfold th_ok in *. destruct Hp as [Hp|Hr Hf|Hp|Hp|Hf|Hf|Hp Hcl|c Hk Hd|Hp|Hf]; simpl.
+  intros Hnf Hok Hp. unfold th_ok in *.
+  destruct Hp as [Hp|v Hr Hk|Hp Hfi|Hp|Hp|Hr Hk|c Hr Hk|Hp Hcl|Hp Hcl|Hp Hcl|Hp Hcl|c Hp Hk Hd|Hp|v Hp Hk|v c Hp Hk|c Hp Hk];
+    simpl.
   - rewrite Hp in Hok. exact Hok.
-  - split; [exact Hf|]. unfold ready in Hr. destruct (t_pc x); try discriminate; auto.
-  - rewrite Hp in Hok. destruct Hok as [Hk Hcl]. intros v Hv. rewrite Hk in Hv. inversion Hv. auto.
-  - rewrite Hp in Hok. contradiction.
-  - exact Hf.
-  - exact Hf.
-  - destruct Hp as [Hp|Hp]; rewrite Hp in Hok; auto.
+  - rewrite Hk. split; [reflexivity|]. destruct (ready_pc s x Hr) as [E|E]; rewrite E in Hok; exact Hok.
+  - rewrite Hp in Hok. destruct Hok as [Hf Hw]. auto.
+  - rewrite Hp in Hok. destruct Hok as (Hk & Hw & Hcl). intros _. auto.
+  - rewrite Hp in Hok. destruct Hok as (Hf & Hw & Hfi). intros E. contradiction.
+  - rewrite Hk. reflexivity.
+  - rewrite Hk. reflexivity.
+  - rewrite Hp in Hok. auto.
+  - rewrite Hp in Hok. auto.
+  - rewrite Hp in Hok. exact Hok.
+  - rewrite Hp in Hok. auto.
   - exists c. auto.
   - rewrite Hp in Hok. destruct Hok as [Hcl Hf]. auto.
-  - intros v Hv. rewrite Hv in Hf. discriminate.
+  - intros E. exfalso. apply Hnf; [rewrite Hk; reflexivity | exact E].
+  - intros E. exfalso. apply Hnf; [rewrite Hk; reflexivity | exact E].
+  - intros E. exfalso. apply Hnf; [rewrite Hk; reflexivity | exact E].
 Qed.
 
-(* a goroutine that is not the filler is indifferent to the filler's write / close while the channel is open *)
-Lemma th_ok_nonfill s s' y :
-  is_fill (t_kind y) = false -> fclosed s = false -> ctxs s' = ctxs s ->
-  th_ok s y -> th_ok s' y.
+(* the goroutines other than the winner are indifferent to the winner's write and close
+   (which happen while the channel is still open) *)
+Lemma th_ok_other s s' tw u y :
+  fwinner s = Some tw -> u <> tw -> fclosed s = false ->
+  fwinner s' = fwinner s -> ffilled s' = ffilled s -> ctxs s' = ctxs s ->
+  th_ok s u y -> th_ok s' u y.
 Proof.
-  intros Hf Hcl Hcx. unfold th_ok, ctx_done. rewrite Hcx, Hcl.
-  destruct (t_pc y); auto; try (intros [E _]; try rewrite E in Hf; discriminate).
-  - intros _ E. rewrite Hf in E. discriminate.
-  - intros _ E. rewrite Hf in E. discriminate.
-  - intros _ E. rewrite Hf in E. discriminate.
-  - intros _ v Hv. rewrite Hv in Hf. discriminate.
+  intros Hw Hne Hcl Hw' Hfi Hcx. unfold th_ok, ctx_done. rewrite Hw', Hfi, Hcx, Hw, Hcl.
+  destruct (t_pc y); auto.
+  - intros (_ & E & _). exfalso. apply Hne. congruence.
+  - intros (_ & E & _). exfalso. apply Hne. congruence.
+  - intros (_ & E & _). exfalso. apply Hne. congruence.
+  - intros (E & _). discriminate.
+  - intros (E & _). discriminate.
+  - intros _ E. exfalso. apply Hne. congruence.
+Qed.
+
+(* ... and to the CompareAndSwap that elects the winner *)
+Lemma th_ok_caswin s s' t u y :
+  fwinner s = None -> ffilled s = false -> u <> t ->
+  fwinner s' = Some t -> fx s' = fx s -> fclosed s' = fclosed s -> ctxs s' = ctxs s ->
+  th_ok s u y -> th_ok s' u y.
+Proof.
+  intros Hw Hfi Hne Hw' Hf Hc Hcx. unfold th_ok, ctx_done. rewrite Hw', Hf, Hc, Hcx, Hw, Hfi.
+  assert (Hd : Some t <> Some u) by congruence.
+  destruct (t_pc y); auto.
+  - intros [E _]. auto.
+  - intros (_ & E & _). discriminate.
+  - intros (_ & E & _). discriminate.
+  - intros (_ & E & _). discriminate.
+  - intros (_ & _ & E). discriminate.
+  - intros _ E. exfalso. apply Hd. exact E.
 Qed.
 
 Lemma FInv_step s l s' : FInv s -> qstep s l = Some s' -> FInv s'.
 Proof.
   intros HI H. apply fqstep_cases in H. destruct HI as [F1 F2 F3].
-  destruct H as [(Ht & Hf & Hc & Hd)|(t & x & p' & Hx & Hths & Hcx & Heff)].
-  - constructor; rewrite ?Ht, ?Hc; auto. intros t x Hx. eapply th_ok_ext; eauto.
+  destruct H as [(Ht & Hsame & Hd)|(t & x & p' & Hx & Hths & Hcx & Heff)].
+  - pose proof Hsame as (Hf & Hc & Hfi & Hw).
+    constructor; rewrite ?Ht, ?Hc, ?Hfi, ?Hw; auto. intros t x Hx. eapply th_ok_ext; eauto.
   - assert (Hnew : nth_error (ths s') t = Some (set_pc x p')) by (rewrite Hths; eapply nth_upd_same; eauto).
     assert (Hoth : forall u y, nth_error (ths s') u = Some y -> u <> t -> nth_error (ths s) u = Some y).
-    { intros u y Hu Hne. rewrite Hths in Hu. apply nth_upd_Some in Hu. destruct Hu as [[E _]|[_ Hu]]; [congruence | exact Hu]. }
-    assert (Hkind : forall u y, nth_error (ths s') u = Some y -> exists y0, nth_error (ths s) u = Some y0 /\ t_kind y0 = t_kind y).
-    { intros u y Hu. destruct (Nat.eq_dec u t) as [->|Hne].
-      - rewrite Hnew in Hu. inversion Hu. exists x. auto.
-      - exists y. auto. }
-    assert (G1 : forall u u' y y', nth_error (ths s') u = Some y -> nth_error (ths s') u' = Some y' ->
-                                   is_fill (t_kind y) = true -> is_fill (t_kind y') = true -> u = u').
-    { intros u u' y y' Hu Hu' Hfy Hfy'. destruct (Hkind u y Hu) as (y0 & Hy0 & E0). destruct (Hkind u' y' Hu') as (y0' & Hy0' & E0').
-      eapply F1; eauto; congruence. }
+    { intros u y Hu Hne. rewrite Hths in Hu. apply nth_upd_Some in Hu.
+      destruct Hu as [[E _]|[_ Hu]]; [congruence | exact Hu]. }
+    assert (Hfwd : forall u y, nth_error (ths s) u = Some y -> is_fill (t_kind y) = true ->
+                               exists y', nth_error (ths s') u = Some y' /\ is_fill (t_kind y') = true).
+    { intros u y Hu Hfy. destruct (Nat.eq_dec u t) as [->|Hne].
+      - exists (set_pc x p'). split; [exact Hnew|]. simpl. congruence.
+      - exists y. split; [|exact Hfy]. rewrite Hths. rewrite nth_error_upd_other by congruence. exact Hu. }
     assert (Hd0 : forall c, ctx_done s c = true -> ctx_done s' c = true) by (intros c; unfold ctx_done; rewrite Hcx; auto).
-    pose proof (F2 t x Hx) as Hokx.
-    destruct Heff as [p' Hf Hc Hp | v Hpx Hk Hf Hc | Hpx Hcl Hf Hc | Hpx Hcl Hf Hc].
+    pose proof (F1 t x Hx) as Hokx.
+    assert (Hnf : is_fill (t_kind x) = false -> fwinner s <> Some t).
+    { intros Hf E. destruct (F2 t E) as (_ & xw & Hxw & Hfw). congruence. }
+    destruct Heff as [l p' Hsame Hp | Hpx Hfi Hfi' Hw' Hf Hc | v Hpx Hk Hf Hc Hfi Hw | Hpx Hcl Hf Hc Hfi Hw | Hpx Hcl Hsame].
     + (* plain *)
-      constructor; [exact G1| |].
+      pose proof Hsame as (Hf & Hc & Hfi & Hw).
+      constructor.
       * intros u y Hu. destruct (Nat.eq_dec u t) as [->|Hne].
-        -- rewrite Hnew in Hu; inversion Hu; subst y. eapply th_ok_ext; eauto. apply plain_ok; auto.
+        -- rewrite Hnew in Hu; inversion Hu; subst y. eapply th_ok_ext; eauto. eapply plain_ok; eauto.
         -- eapply th_ok_ext; eauto.
-      * rewrite Hc. intros Hcl. destruct (F3 Hcl) as (u & y & Hu & Hfy).
-        destruct (Nat.eq_dec u t) as [->|Hne].
-        -- exists t, (set_pc x p'). split; [exact Hnew|]. simpl. congruence.
-        -- exists u, y. split; [|exact Hfy]. rewrite Hths. rewrite nth_error_upd_other by congruence. exact Hu.
-    + (* the filler writes f.x *)
-      unfold th_ok in Hokx. rewrite Hpx in Hokx. destruct Hokx as [Hfx Hcl].
-      constructor; [exact G1| |].
+      * rewrite Hw, Hfi. intros tw E. destruct (F2 tw E) as (Hfl & xw & Hxw & Hfw). split; [exact Hfl|].
+        eapply Hfwd; eauto.
+      * rewrite Hw, Hfi, Hc. exact F3.
+    + (* the CompareAndSwap succeeds: this goroutine becomes the winner *)
+      assert (Hw0 : fwinner s = None).
+      { destruct (fwinner s) as [tw|] eqn:E; [|reflexivity]. destruct (F2 tw eq_refl) as [Hc0 _]. congruence. }
+      unfold th_ok in Hokx. rewrite Hpx in Hokx. destruct Hokx as [Hfx _].
+      destruct (F3 Hw0) as [_ Hcl].
+      constructor.
       * intros u y Hu. destruct (Nat.eq_dec u t) as [->|Hne].
-        -- rewrite Hnew in Hu; inversion Hu; subst y. unfold th_ok. simpl. rewrite Hf, Hc. auto.
-        -- pose proof (Hoth u y Hu Hne) as Hu0. apply th_ok_nonfill with (s := s); [ | exact Hcl | exact Hcx | exact (F2 u y Hu0)].
-           destruct (is_fill (t_kind y)) eqn:Hfy; [|reflexivity]. exfalso. apply Hne. eapply F1; eauto.
-      * rewrite Hc, Hcl. discriminate.
-    + (* the filler closes f.c *)
-      unfold th_ok in Hokx. rewrite Hpx in Hokx. destruct Hokx as [Hkx _].
-      assert (Hfx : is_fill (t_kind x) = true) by (rewrite Hkx; reflexivity).
-      constructor; [exact G1| |].
+        -- rewrite Hnew in Hu; inversion Hu; subst y. unfold th_ok. simpl. rewrite Hw', Hc. auto.
+        -- eapply th_ok_caswin with (s := s) (t := t); eauto.
+      * rewrite Hw'. intros tw E. inversion E; subst tw. split; [exact Hfi'|].
+        exists (set_pc x PFillWon). split; [exact Hnew | exact Hfx].
+      * rewrite Hw'. discriminate.
+    + (* the winner writes f.x *)
+      unfold th_ok in Hokx. rewrite Hpx in Hokx. destruct Hokx as (Hfx & Hwt & Hcl).
+      constructor.
       * intros u y Hu. destruct (Nat.eq_dec u t) as [->|Hne].
-        -- rewrite Hnew in Hu; inversion Hu; subst y. unfold th_ok. simpl. rewrite Hf, Hc. auto.
-        -- pose proof (Hoth u y Hu Hne) as Hu0. apply th_ok_nonfill with (s := s); [ | exact Hcl | exact Hcx | exact (F2 u y Hu0)].
-           destruct (is_fill (t_kind y)) eqn:Hfy; [|reflexivity]. exfalso. apply Hne. eapply F1; eauto.
-      * intros _. exists t, (set_pc x PFillClosed). split; [exact Hnew | exact Hfx].
-    + (* second close: excluded *)
-      unfold th_ok in Hokx. rewrite Hpx in Hokx. destruct Hokx as [_ Hop]. congruence.
+        -- rewrite Hnew in Hu; inversion Hu; subst y. unfold th_ok. simpl. rewrite Hf, Hc, Hw. auto.
+        -- eapply th_ok_other with (s := s) (tw := t); eauto.
+      * rewrite Hw, Hfi. intros tw E. destruct (F2 tw E) as (Hfl & xw & Hxw & Hfw). split; [exact Hfl|].
+        eapply Hfwd; eauto.
+      * rewrite Hw, Hwt. discriminate.
+    + (* the winner closes f.c *)
+      unfold th_ok in Hokx. rewrite Hpx in Hokx. destruct Hokx as (Hkx & Hwt & _).
+      constructor.
+      * intros u y Hu. destruct (Nat.eq_dec u t) as [->|Hne].
+        -- rewrite Hnew in Hu; inversion Hu; subst y. unfold th_ok. simpl. rewrite Hf, Hc, Hw. auto.
+        -- eapply th_ok_other with (s := s) (tw := t); eauto.
+      * rewrite Hw, Hfi. intros tw E. destruct (F2 tw E) as (Hfl & xw & Hxw & Hfw). split; [exact Hfl|].
+        eapply Hfwd; eauto.
+      * rewrite Hw, Hwt. discriminate.
+    + (* close of a closed channel: excluded *)
+      unfold th_ok in Hokx. rewrite Hpx in Hokx. destruct Hokx as (_ & _ & Hop). congruence.
 Qed.
 
-Lemma FInv_init cfg nctx ng : at_most_one_fill cfg -> FInv (init cfg nctx ng).
+Lemma FInv_init cfg nctx ng : FInv (init cfg nctx ng).
 Proof.
-  intros H1. constructor; simpl.
-  - intros t t' x x' Hx Hx' Hf Hf'. rewrite nth_error_map in Hx, Hx'.
-    destruct (nth_error cfg t) as [p|] eqn:Ep; [|discriminate]. destruct (nth_error cfg t') as [q|] eqn:Eq; [|discriminate].
-    inversion Hx; subst x. inversion Hx'; subst x'. simpl in *. eapply H1; eauto.
+  constructor; simpl.
   - intros t x Hx. rewrite nth_error_map in Hx. destruct (nth_error cfg t); [|discriminate].
-    inversion Hx. unfold th_ok. simpl. auto.
+    inversion Hx. unfold th_ok. simpl. discriminate.
   - discriminate.
+  - auto.
 Qed.
 
-Theorem fut_inv cfg nctx ng s :
-  at_most_one_fill cfg -> reachable qstep (init cfg nctx ng) s -> FInv s.
+Theorem fut_inv cfg nctx ng s : reachable qstep (init cfg nctx ng) s -> FInv s.
 Proof.
-  intros H1. apply (invariant_rule qstep FInv). - apply FInv_init; exact H1. - intros; eapply FInv_step; eauto.
+  apply (invariant_rule qstep FInv). - apply FInv_init. - intros; eapply FInv_step; eauto.
 Qed.
 
-(* once the channel is closed, f.x is the value of the (only) Fill call *)
+(* the goroutines keep the kinds the configuration gave them *)
+Definition KInv (cfg : list (option nat * kind)) (s : st) : Prop :=
+  forall u, option_map t_kind (nth_error (ths s) u) = option_map snd (nth_error cfg u).
+
+Lemma KInv_step cfg s l s' : KInv cfg s -> qstep s l = Some s' -> KInv cfg s'.
+Proof.
+  intros HK H. apply fqstep_cases in H.
+  destruct H as [(Ht & _ & _)|(t & x & p' & Hx & Hths & _ & _)]; unfold KInv; intros u.
+  - rewrite Ht. apply HK.
+  - rewrite Hths. destruct (Nat.eq_dec t u) as [<-|Hne].
+    + erewrite nth_upd_same by eauto. rewrite <- HK, Hx. reflexivity.
+    + rewrite nth_error_upd_other by exact Hne. apply HK.
+Qed.
+
+Theorem fut_kinds cfg nctx ng s : reachable qstep (init cfg nctx ng) s -> KInv cfg s.
+Proof.
+  apply (invariant_rule qstep (KInv cfg)).
+  - intros u. simpl. rewrite nth_error_map. destruct (nth_error cfg u); reflexivity.
+  - intros; eapply KInv_step; eauto.
+Qed.
+
+(* once the channel is closed, f.x is the value of the Fill call that won the CompareAndSwap *)
 Lemma closed_value s :
-  FInv s -> fclosed s = true -> exists t x, nth_error (ths s) t = Some x /\ t_kind x = KFill (fx s).
+  FInv s -> fclosed s = true ->
+  exists tw xw, fwinner s = Some tw /\ nth_error (ths s) tw = Some xw /\ t_kind xw = KFill (fx s).
 Proof.
-  intros [F1 F2 F3] Hcl. destruct (F3 Hcl) as (t & x & Hx & Hf). exists t, x. split; [exact Hx|].
-  pose proof (F2 t x Hx) as Hok. unfold th_ok in Hok.
-  destruct (t_pc x); try (specialize (Hok Hf); congruence); try (decompose [and] Hok; congruence); try contradiction.
-  - destruct Hok as (c & Hk & _). rewrite Hk in Hf. discriminate.
-  - destruct (t_kind x) as [v| |] eqn:Hk; try discriminate. destruct (Hok v eq_refl) as [E _]. rewrite E. reflexivity.
+  intros [F1 F2 F3] Hcl. destruct (fwinner s) as [tw|] eqn:Hw.
+  - destruct (F2 tw eq_refl) as (_ & xw & Hxw & Hf). exists tw, xw. split; [reflexivity|]. split; [exact Hxw|].
+    pose proof (F1 tw xw Hxw) as Hok. unfold th_ok in Hok. rewrite Hw in Hok.
+    destruct (t_pc xw) as [| | | | | | | | | | | |w| |].
+    + exfalso. apply Hok. reflexivity.
+    + exfalso. apply Hok. reflexivity.
+    + exfalso. apply Hok. reflexivity.
+    + destruct Hok as [_ Hne]. exfalso. apply Hne. reflexivity.
+    + destruct Hok as (_ & _ & Hop). congruence.
+    + destruct Hok as (_ & _ & Hop). congruence.
+    + destruct Hok as (Hk & _ & _). exact Hk.
+    + destruct Hok as (_ & Hne & _). exfalso. apply Hne. reflexivity.
+    + congruence.
+    + congruence.
+    + congruence.
+    + destruct Hok as (_ & Hnf). congruence.
+    + destruct Hok as (_ & _ & Hnf). congruence.
+    + destruct Hok as (c & Hk & _). rewrite Hk in Hf. discriminate.
+    + destruct (Hok eq_refl) as [Hk _]. exact Hk.
+  - destruct (F3 eq_refl) as [_ Hop]. congruence.
 Qed.
 
-(* after the close, no step changes f.x or reopens the channel *)
-Lemma filled_stable s l s' :
-  FInv s -> fclosed s = true -> qstep s l = Some s' -> fx s' = fx s /\ fclosed s' = true.
+(* the flag f.filled is set exactly when some Fill has won; a closed channel implies it *)
+Lemma filled_iff_winner s : FInv s -> (ffilled s = true <-> fwinner s <> None).
 Proof.
-  intros HI Hcl H. apply fqstep_cases in H.
-  destruct H as [(Ht & Hf & Hc & Hd)|(t & x & p' & Hx & Hths & Hcx & Heff)].
-  - split; congruence.
+  intros [F1 F2 F3]. split.
+  - intros Hfi E. destruct (F3 E) as [Hn _]. congruence.
+  - intros Hne. destruct (fwinner s) as [tw|] eqn:Hw; [|congruence]. destruct (F2 tw eq_refl) as [Hfi _]. exact Hfi.
+Qed.
+
+Lemma closed_filled s : FInv s -> fclosed s = true -> ffilled s = true.
+Proof.
+  intros HI Hcl. destruct (closed_value s HI Hcl) as (tw & xw & Hw & _).
+  apply (filled_iff_winner s HI). congruence.
+Qed.
+
+(* after the close, no step changes f.x, reopens the channel or changes the winner *)
+Lemma filled_stable s l s' :
+  FInv s -> fclosed s = true -> qstep s l = Some s' ->
+  fx s' = fx s /\ fclosed s' = true /\ fwinner s' = fwinner s.
+Proof.
+  intros HI Hcl H. pose proof (closed_filled s HI Hcl) as Hfl. apply fqstep_cases in H.
+  destruct H as [(Ht & (Hf & Hc & Hfi & Hw) & Hd)|(t & x & p' & Hx & Hths & Hcx & Heff)].
+  - repeat split; congruence.
   - pose proof (f_ths s HI t x Hx) as Hok. unfold th_ok in Hok.
-    destruct Heff as [p' Hf Hc Hp | v Hpx Hk Hf Hc | Hpx Hop Hf Hc | Hpx Hcl' Hf Hc].
-    + split; congruence.
-    + rewrite Hpx in Hok. destruct Hok as [_ Hop]. congruence.
+    destruct Heff as [l p' (Hf & Hc & Hfi & Hw) Hp | Hpx Hfi Hfi' Hw' Hf Hc | v Hpx Hk Hf Hc Hfi Hw | Hpx Hop Hf Hc Hfi Hw | Hpx Hcl' (Hf & Hc & Hfi & Hw)].
+    + repeat split; congruence.
     + congruence.
-    + split; congruence.
+    + rewrite Hpx in Hok. destruct Hok as (_ & _ & Hop). congruence.
+    + congruence.
+    + repeat split; congruence.
+Qed.
+
+Lemma filled_stable_run s ls s' :
+  FInv s -> fclosed s = true -> run qstep s ls = Some s' ->
+  fx s' = fx s /\ fclosed s' = true /\ fwinner s' = fwinner s.
+Proof.
+  revert s. induction ls as [|l ls IH]; intros s HI Hcl Hr; simpl in Hr.
+  - inversion Hr; subst s'. auto.
+  - destruct (qstep s l) as [s1|] eqn:E; [|discriminate].
+    destruct (filled_stable s l s1 HI Hcl E) as (Hf & Hc & Hw).
+    destruct (IH s1 (FInv_step s l s1 HI E) Hc Hr) as (Hf' & Hc' & Hw'). repeat split; congruence.
+Qed.
+
+(* f.x is written only by the winner, and only while the channel is still open *)
+Lemma only_winner_writes s l s' :
+  FInv s -> qstep s l = Some s' -> fx s' <> fx s ->
+  exists tw xw, l = TWrite tw /\ fwinner s = Some tw /\ nth_error (ths s) tw = Some xw /\
+                t_kind xw = KFill (fx s') /\ fclosed s = false.
+Proof.
+  intros HI H Hne. apply fqstep_cases in H.
+  destruct H as [(Ht & (Hf & _) & Hd)|(t & x & p' & Hx & Hths & Hcx & Heff)]; [congruence|].
+  pose proof (f_ths s HI t x Hx) as Hok. unfold th_ok in Hok.
+  destruct Heff as [l p' (Hf & _) Hp | Hpx Hfi Hfi' Hw' Hf Hc | v Hpx Hk Hf Hc Hfi Hw | Hpx Hop Hf Hc Hfi Hw | Hpx Hcl' (Hf & _)];
+    try congruence.
+  rewrite Hpx in Hok. destruct Hok as (_ & Hwt & Hop).
+  exists t, x. rewrite Hf. auto.
+Qed.
+
+(* the CompareAndSwap: the first one wins, every later one panics at once and changes nothing *)
+Lemma cas_step s t s' :
+  FInv s -> qstep s (TCas t) = Some s' ->
+  exists x, nth_error (ths s) t = Some x /\ t_pc x = PFillCalled /\
+  ((ffilled s = false /\ fwinner s = None /\ ffilled s' = true /\ fwinner s' = Some t /\
+    nth_error (ths s') t = Some (set_pc x PFillWon)) \/
+   (ffilled s = true /\ (exists tw, fwinner s = Some tw /\ tw <> t) /\ ffilled s' = true /\
+    fwinner s' = fwinner s /\ nth_error (ths s') t = Some (set_pc x PFillPanic))) /\
+  fx s' = fx s /\ fclosed s' = fclosed s.
+Proof.
+  intros HI H. simpl in H. unfold getth in H. destruct (nth_error (ths s) t) as [x|] eqn:Hx; [|discriminate].
+  destruct (t_pc x) eqn:Hp; try discriminate. exists x. split; [reflexivity|]. split; [exact Hp|].
+  pose proof (f_ths s HI t x Hx) as Hok. unfold th_ok in Hok. rewrite Hp in Hok. destruct Hok as [_ Hnw].
+  destruct (ffilled s) eqn:Hfi; inversion H; subst s'; simpl.
+  - split; [|auto]. right. split; [reflexivity|]. split.
+    + destruct (fwinner s) as [tw|] eqn:Hw.
+      * exists tw. split; [reflexivity|]. intros ->. apply Hnw. reflexivity.
+      * destruct (f_win_none s HI Hw) as [E _]. congruence.
+    + split; [exact Hfi|]. split; [reflexivity|]. eapply nth_upd_same; eauto.
+  - split; [|auto]. left. split; [reflexivity|]. split.
+    + destruct (fwinner s) as [tw|] eqn:Hw; [|reflexivity]. destruct (f_win_some s HI tw Hw) as [E _]. congruence.
+    + split; [reflexivity|]. split; [reflexivity|]. eapply nth_upd_same; eauto.
+Qed.
+
+(* only the winner is ever past the CompareAndSwap; a goroutine that panics is not the winner *)
+Lemma winner_pcs s t x :
+  FInv s -> nth_error (ths s) t = Some x ->
+  (t_pc x = PFillWon \/ t_pc x = PFillWritten \/ t_pc x = PFillClosed -> fwinner s = Some t) /\
+  (t_pc x = PFillPanic -> exists tw, fwinner s = Some tw /\ tw <> t).
+Proof.
+  intros HI Hx. pose proof (f_ths s HI t x Hx) as Hok. unfold th_ok in Hok. split.
+  - intros [E|[E|E]]; rewrite E in Hok; tauto.
+  - intros E. rewrite E in Hok. destruct Hok as (_ & Hnw & Hfi).
+    destruct (fwinner s) as [tw|] eqn:Hw.
+    + exists tw. split; [reflexivity|]. intros ->. apply Hnw. reflexivity.
+    + destruct (f_win_none s HI Hw) as [E' _]. congruence.
+Qed.
+
+(* what Fill's two outcomes mean *)
+Lemma ret_fill s t s' :
+  FInv s -> qstep s (LRetFill t) = Some s' ->
+  fwinner s = Some t /\ fclosed s = true /\ exists x, nth_error (ths s) t = Some x /\ t_kind x = KFill (fx s).
+Proof.
+  intros HI H. simpl in H. unfold getth in H. destruct (nth_error (ths s) t) as [x|] eqn:Hx; [|discriminate].
+  destruct (t_pc x) eqn:Hp; try discriminate.
+  pose proof (f_ths s HI t x Hx) as Hok. unfold th_ok in Hok. rewrite Hp in Hok. destruct Hok as (Hk & Hw & Hcl).
+  split; [exact Hw|]. split; [exact Hcl|]. exists x. auto.
+Qed.
+
+Lemma panic_fill s t s' :
+  FInv s -> qstep s (LPanicFill t) = Some s' -> exists tw, fwinner s = Some tw /\ tw <> t.
+Proof.
+  intros HI H. simpl in H. unfold getth in H. destruct (nth_error (ths s) t) as [x|] eqn:Hx; [|discriminate].
+  destruct (t_pc x) eqn:Hp; try discriminate.
+  apply (proj2 (winner_pcs s t x HI Hx)). exact Hp.
 Qed.
 
 (* what Wait / WaitContext return *)
 Lemma ret_wait s t v s' :
   FInv s -> step s (LRetWait t v) = Some s' ->
-  fclosed s = true /\ fx s = v /\ exists tf xf, nth_error (ths s) tf = Some xf /\ t_kind xf = KFill v.
+  fclosed s = true /\ fx s = v /\
+  exists tw xw, fwinner s = Some tw /\ nth_error (ths s) tw = Some xw /\ t_kind xw = KFill v.
 Proof.
   intros HI H. simpl in H. unfold getth in H. destruct (nth_error (ths s) t) as [x|] eqn:Hx; [|discriminate].
-  destruct (t_pc x) eqn:Hp; try discriminate. destruct (t_kind x); try discriminate.
-  destruct (Z.eqb v v0) eqn:E; [|discriminate]. apply Z.eqb_eq in E. subst v0.
+  destruct (t_pc x) as [| | | | | | | | | | | |w| |] eqn:Hp; try discriminate. destruct (t_kind x); try discriminate.
+  destruct (Z.eqb v w) eqn:E; [|discriminate]. apply Z.eqb_eq in E. subst w.
   pose proof (f_ths s HI t x Hx) as Hok. unfold th_ok in Hok. rewrite Hp in Hok. destruct Hok as (Hcl & Hv & _).
   split; [exact Hcl|]. split; [congruence|]. rewrite Hv. apply closed_value; auto.
 Qed.
 
 Lemma ret_waitctx s t v e s' :
   FInv s -> step s (LRetWaitCtx t v e) = Some s' ->
-  (e = false /\ fclosed s = true /\ fx s = v /\ exists tf xf, nth_error (ths s) tf = Some xf /\ t_kind xf = KFill v) \/
+  (e = false /\ fclosed s = true /\ fx s = v /\
+   exists tw xw, fwinner s = Some tw /\ nth_error (ths s) tw = Some xw /\ t_kind xw = KFill v) \/
   (e = true /\ v = 0%Z /\ exists x c, nth_error (ths s) t = Some x /\ t_kind x = KWaitCtx c /\ ctx_done s c = true).
 Proof.
   intros HI H. simpl in H. unfold getth in H. destruct (nth_error (ths s) t) as [x|] eqn:Hx; [|discriminate].
   pose proof (f_ths s HI t x Hx) as Hok. unfold th_ok in Hok.
-  destruct (t_pc x) eqn:Hp; try discriminate; destruct (t_kind x) eqn:Hk; try discriminate.
-  - destruct (Z.eqb v v0 && negb e) eqn:E; [|discriminate]. apply andb_true_iff in E. destruct E as [Ev Ee].
-    apply Z.eqb_eq in Ev. subst v0. apply negb_true_iff in Ee. destruct Hok as (Hcl & Hv & _).
+  destruct (t_pc x) as [| | | | | | | | | | | |w| |] eqn:Hp; try discriminate; destruct (t_kind x) eqn:Hk; try discriminate.
+  - destruct (Z.eqb v w && negb e) eqn:E; [|discriminate]. apply andb_true_iff in E. destruct E as [Ev Ee].
+    apply Z.eqb_eq in Ev. subst w. apply negb_true_iff in Ee. destruct Hok as (Hcl & Hv & _).
     left. split; [exact Ee|]. split; [exact Hcl|]. split; [congruence|]. rewrite Hv. apply closed_value; auto.
   - destruct (Z.eqb v 0%Z && e) eqn:E; [|discriminate]. apply andb_true_iff in E. destruct E as [Ev Ee].
     apply Z.eqb_eq in Ev. destruct Hok as (c' & Hk' & Hd). right. split; [exact Ee|]. split; [exact Ev|].
     exists x, c'. repeat split; [congruence | exact Hd].
 Qed.
 
-(* progress: the enabling conditions of the blocking points *)
+(* progress: the enabling conditions of the blocking points; every other point is always enabled *)
+Lemma fill_progress s t x :
+  nth_error (ths s) t = Some x ->
+  (t_pc x = PFillCalled -> exists s', step s (TCas t) = Some s') /\
+  (t_pc x = PFillWon -> is_fill (t_kind x) = true -> exists s', step s (TWrite t) = Some s') /\
+  (t_pc x = PFillWritten -> exists s', step s (TCloseF t) = Some s') /\
+  (t_pc x = PFillClosed -> exists s', step s (LRetFill t) = Some s') /\
+  (t_pc x = PFillPanic -> exists s', step s (LPanicFill t) = Some s').
+Proof.
+  intros Hx. repeat split.
+  - intros Hp. simpl. unfold getth. rewrite Hx, Hp. destruct (ffilled s); eauto.
+  - intros Hp Hf. simpl. unfold getth. rewrite Hx, Hp. destruct (t_kind x); try discriminate. eauto.
+  - intros Hp. simpl. unfold getth. rewrite Hx, Hp. destruct (fclosed s); eauto.
+  - intros Hp. simpl. unfold getth. rewrite Hx, Hp. eauto.
+  - intros Hp. simpl. unfold getth. rewrite Hx, Hp. eauto.
+Qed.
+
 Lemma wait_progress s t x :
   nth_error (ths s) t = Some x -> t_pc x = PWaitCalled -> fclosed s = true -> exists s', step s (TRecv t) = Some s'.
 Proof. intros Hx Hp Hcl. simpl. unfold getth. rewrite Hx, Hp, Hcl. eauto. Qed.
 
+(* the first select of WaitContext never blocks: exactly one of its arms is enabled *)
+Lemma waitctx_progress_poll s t x :
+  nth_error (ths s) t = Some x -> t_pc x = PCtxCalled ->
+  (fclosed s = true -> (exists s', step s (TPollF t) = Some s') /\ step s (TPollD t) = None) /\
+  (fclosed s = false -> (exists s', step s (TPollD t) = Some s') /\ step s (TPollF t) = None).
+Proof.
+  intros Hx Hp. split; intros Hcl; simpl; unfold getth; rewrite Hx, Hp, Hcl; eauto.
+Qed.
+
 Lemma waitctx_progress_fill s t x :
-  nth_error (ths s) t = Some x -> t_pc x = PCtxCalled -> fclosed s = true -> exists s', step s (TSelF t) = Some s'.
+  nth_error (ths s) t = Some x -> t_pc x = PCtxSel -> fclosed s = true -> exists s', step s (TSelF t) = Some s'.
 Proof. intros Hx Hp Hcl. simpl. unfold getth. rewrite Hx, Hp, Hcl. eauto. Qed.
 
 Lemma waitctx_progress_ctx s t x c :
-  nth_error (ths s) t = Some x -> t_pc x = PCtxCalled -> t_kind x = KWaitCtx c -> ctx_done s c = true ->
+  nth_error (ths s) t = Some x -> t_pc x = PCtxSel -> t_kind x = KWaitCtx c -> ctx_done s c = true ->
   exists s', step s (TSelCtx t) = Some s'.
 Proof. intros Hx Hp Hk Hd. simpl. unfold getth. rewrite Hx, Hp, Hk, Hd. eauto. Qed.
 
@@ -1168,17 +1418,104 @@ Proof.
   - intros c Hp Hk. simpl. unfold getth. rewrite Hx, Hp, Hk. simpl. eauto.
 Qed.
 
-(* with a single Fill nothing panics; a second close always panics *)
-Lemma no_panic s t x : FInv s -> nth_error (ths s) t = Some x -> t_pc x <> PFillPanic.
-Proof. intros HI Hx E. pose proof (f_ths s HI t x Hx) as Hok. unfold th_ok in Hok. rewrite E in Hok. exact Hok. Qed.
+(* with a single Fill nothing panics *)
+Lemma no_panic cfg s t x :
+  at_most_one_fill cfg -> FInv s -> KInv cfg s -> nth_error (ths s) t = Some x -> t_pc x <> PFillPanic.
+Proof.
+  intros H1 HI HK Hx E.
+  destruct (proj2 (winner_pcs s t x HI Hx) E) as (tw & Hw & Hne).
+  destruct (f_win_some s HI tw Hw) as (_ & xw & Hxw & Hfw).
+  pose proof (f_ths s HI t x Hx) as Hok. unfold th_ok in Hok. rewrite E in Hok. destruct Hok as (Hfx & _).
+  pose proof (HK t) as Kt. pose proof (HK tw) as Kw. rewrite Hx in Kt. rewrite Hxw in Kw. simpl in Kt, Kw.
+  destruct (nth_error cfg t) as [p|] eqn:Ep; [|discriminate]. destruct (nth_error cfg tw) as [q|] eqn:Eq; [|discriminate].
+  simpl in Kt, Kw. inversion Kt as [Kt']. inversion Kw as [Kw'].
+  apply Hne. symmetry. eapply H1; eauto; congruence.
+Qed.
 
-Lemma second_close_panics s t s' :
-  fclosed s = true -> step s (TCloseF t) = Some s' ->
-  exists x', nth_error (ths s') t = Some x' /\ t_pc x' = PFillPanic.
+(* a Fill of an already filled future panics at its CompareAndSwap, before it writes anything *)
+Lemma second_fill_panics s t s' :
+  ffilled s = true -> step s (TCas t) = Some s' ->
+  (exists x', nth_error (ths s') t = Some x' /\ t_pc x' = PFillPanic) /\
+  fx s' = fx s /\ fclosed s' = fclosed s /\ ffilled s' = true /\ fwinner s' = fwinner s.
+Proof.
+  intros Hfi H. simpl in H. unfold getth in H. destruct (nth_error (ths s) t) as [x|] eqn:Hx; [|discriminate].
+  destruct (t_pc x) eqn:Hp; try discriminate. rewrite Hfi in H. inversion H; subst s'. simpl.
+  split; [|auto]. exists (set_pc x PFillPanic). split; [eapply nth_upd_same; eauto | reflexivity].
+Qed.
+
+(* ---- a WaitContext that is called after the future was filled ---- *)
+
+(* the call of goroutine t was made with the channel already closed and the value fv in f.x *)
+Definition late_ok (fv : Z) (t : nat) (s : st) : Prop :=
+  fclosed s = true /\ fx s = fv /\
+  exists x, nth_error (ths s) t = Some x /\
+            (t_pc x = PCtxCalled \/ t_pc x = PRecvd \/ t_pc x = PRead fv \/ t_pc x = PDone).
+
+Lemma late_ok_step fv t s l s' :
+  FInv s -> late_ok fv t s -> qstep s l = Some s' -> late_ok fv t s'.
+Proof.
+  intros HI (Hcl & Hfv & x & Hx & Hpc) H.
+  destruct (filled_stable s l s' HI Hcl H) as (Hf' & Hcl' & _).
+  unfold late_ok. split; [exact Hcl'|]. split; [congruence|].
+  apply fqstep_cases in H. destruct H as [(Ht & _ & _)|(u & y & p' & Hy & Hths & Hcx & Heff)].
+  - exists x. rewrite Ht. auto.
+  - destruct (Nat.eq_dec u t) as [->|Hne].
+    + rewrite Hx in Hy. inversion Hy; subst y. exists (set_pc x p'). split; [rewrite Hths; eapply nth_upd_same; eauto|].
+      simpl.
+      destruct Heff as [l p' _ Hp | Hpx _ _ _ _ _ | v Hpx _ _ _ _ _ | Hpx _ _ _ _ _ | Hpx _ _];
+        try (exfalso; destruct Hpc as [E|[E|[E|E]]]; congruence).
+      destruct Hp as [Hp|v Hr Hk|Hp Hfi|Hp|Hp|Hr Hk|c Hr Hk|Hp Hc|Hp Hc|Hp Hc|Hp Hc|c Hp Hk Hd|Hp|v Hp Hk|v c Hp Hk|c Hp Hk];
+        try (destruct (ready_pc s x Hr) as [Hp|Hp]);
+        try (exfalso; destruct Hpc as [E|[E|[E|E]]]; congruence); auto.
+      right; right; left. congruence.
+    + exists x. split; [|exact Hpc]. rewrite Hths. rewrite nth_error_upd_other by exact Hne. exact Hx.
+Qed.
+
+Lemma late_ok_run fv t s ls s' :
+  FInv s -> late_ok fv t s -> run qstep s ls = Some s' -> late_ok fv t s'.
+Proof.
+  revert s. induction ls as [|l ls IH]; intros s HI HL Hr; simpl in Hr.
+  - inversion Hr; subst s'. exact HL.
+  - destruct (qstep s l) as [s1|] eqn:E; [|discriminate].
+    apply (IH s1); [eapply FInv_step; eauto | eapply late_ok_step; eauto | exact Hr].
+Qed.
+
+Lemma late_ok_call s t c s' :
+  fclosed s = true -> qstep s (LCallWaitCtx t c) = Some s' -> late_ok (fx s) t s'.
 Proof.
   intros Hcl H. simpl in H. unfold getth in H. destruct (nth_error (ths s) t) as [x|] eqn:Hx; [|discriminate].
-  destruct (t_pc x) eqn:Hp; try discriminate. rewrite Hcl in H. inversion H; subst s'. simpl.
-  exists (set_pc x PFillPanic). split; [eapply nth_upd_same; eauto | reflexivity].
+  destruct (t_kind x) as [v'| |c']; try discriminate. destruct (ready s x && Nat.eqb c c'); [|discriminate].
+  inversion H; subst s'. unfold late_ok. simpl. split; [exact Hcl|]. split; [reflexivity|].
+  exists (set_pc x PCtxCalled). split; [eapply nth_upd_same; eauto | auto].
+Qed.
+
+Lemma late_ok_ret fv t s v e s' :
+  late_ok fv t s -> qstep s (LRetWaitCtx t v e) = Some s' -> e = false /\ v = fv.
+Proof.
+  intros (Hcl & Hfv & x & Hx & Hpc) H. simpl in H. unfold getth in H. rewrite Hx in H.
+  destruct (t_pc x) as [| | | | | | | | | | | |w| |] eqn:Hp;
+    try discriminate H; try (exfalso; destruct Hpc as [E|[E|[E|E]]]; discriminate E).
+  destruct (t_kind x); try discriminate H.
+  destruct (Z.eqb v w && negb e) eqn:E; [|discriminate]. apply andb_true_iff in E. destruct E as [Ev Ee].
+  apply Z.eqb_eq in Ev. apply negb_true_iff in Ee. split; [exact Ee|].
+  destruct Hpc as [E|[E|[E|E]]]; try discriminate E. inversion E. congruence.
+Qed.
+
+(* "Returns immediately if f is already filled": a WaitContext whose call starts after the channel was
+   closed returns the filled value and no error, whatever the state of its context, along every run *)
+Theorem late_waitcontext cfg nctx ng s t c s1 ls s2 v e s3 :
+  reachable qstep (init cfg nctx ng) s -> fclosed s = true ->
+  qstep s (LCallWaitCtx t c) = Some s1 -> run qstep s1 ls = Some s2 ->
+  qstep s2 (LRetWaitCtx t v e) = Some s3 ->
+  e = false /\ v = fx s /\ fx s2 = fx s.
+Proof.
+  intros Hr Hcl Hcall Hrun Hret.
+  pose proof (fut_inv cfg nctx ng s Hr) as HI.
+  pose proof (FInv_step s _ s1 HI Hcall) as HI1.
+  pose proof (late_ok_call s t c s1 Hcl Hcall) as HL1.
+  pose proof (late_ok_run (fx s) t s1 ls s2 HI1 HL1 Hrun) as HL2.
+  destruct (late_ok_ret (fx s) t s2 v e s3 HL2 Hret) as [He Hv].
+  split; [exact He|]. split; [exact Hv|]. destruct HL2 as (_ & Hf & _). exact Hf.
 Qed.
 
 (* a decidable sufficient condition (used for the examples): count the Fill goroutines *)
@@ -1211,52 +1548,141 @@ Proof.
 Qed.
 
 (* ---- the statement of C18 (Future) ---- *)
-Definition future_stmt (s : st) : Prop :=
-  (* (a) a Wait that returns, returns the value of the Fill call, after the channel was closed *)
+Definition future_stmt (cfg : list (option nat * kind)) (s : st) : Prop :=
+  (* (a) a Wait that returns, returns the value of the Fill call that won, after the channel was closed *)
   (forall t v s', qstep s (LRetWait t v) = Some s' ->
                   fclosed s = true /\ fx s = v /\
-                  exists tf xf, nth_error (ths s) tf = Some xf /\ t_kind xf = KFill v) /\
+                  exists tw xw, fwinner s = Some tw /\ nth_error (ths s) tw = Some xw /\ t_kind xw = KFill v) /\
   (* (b) a WaitContext that returns without error returns that value; with an error it returns the
      zero value and its context is done *)
   (forall t v e s', qstep s (LRetWaitCtx t v e) = Some s' ->
      (e = false /\ fclosed s = true /\ fx s = v /\
-      exists tf xf, nth_error (ths s) tf = Some xf /\ t_kind xf = KFill v) \/
+      exists tw xw, fwinner s = Some tw /\ nth_error (ths s) tw = Some xw /\ t_kind xw = KFill v) \/
      (e = true /\ v = 0%Z /\
       exists x c, nth_error (ths s) t = Some x /\ t_kind x = KWaitCtx c /\ ctx_done s c = true)) /\
-  (* (c) once filled, the value never changes and the channel stays closed *)
+  (* (c) once filled, the value never changes, the channel stays closed, the winner stays the winner *)
   (fclosed s = true ->
-   (exists tf xf, nth_error (ths s) tf = Some xf /\ t_kind xf = KFill (fx s)) /\
-   forall l s', qstep s l = Some s' -> fx s' = fx s /\ fclosed s' = true) /\
-  (* (d) progress: a waiter has an enabled step once the future is filled, and a WaitContext
-     caller also once its context is done; after the select every step up to the return is enabled *)
+   (exists tw xw, fwinner s = Some tw /\ nth_error (ths s) tw = Some xw /\ t_kind xw = KFill (fx s)) /\
+   (forall l s', qstep s l = Some s' -> fx s' = fx s /\ fclosed s' = true /\ fwinner s' = fwinner s) /\
+   (forall ls s', run qstep s ls = Some s' -> fx s' = fx s /\ fclosed s' = true /\ fwinner s' = fwinner s)) /\
+  (* (d) progress *)
   (forall t x, nth_error (ths s) t = Some x ->
+     (t_pc x = PFillCalled -> exists s', step s (TCas t) = Some s') /\
+     (t_pc x = PFillWon -> exists s', step s (TWrite t) = Some s') /\
+     (t_pc x = PFillWritten -> exists s', step s (TCloseF t) = Some s') /\
+     (t_pc x = PFillClosed -> exists s', step s (LRetFill t) = Some s') /\
+     (t_pc x = PFillPanic -> exists s', step s (LPanicFill t) = Some s') /\
      (t_pc x = PWaitCalled -> fclosed s = true -> exists s', step s (TRecv t) = Some s') /\
-     (t_pc x = PCtxCalled -> fclosed s = true -> exists s', step s (TSelF t) = Some s') /\
-     (forall c, t_pc x = PCtxCalled -> t_kind x = KWaitCtx c -> ctx_done s c = true ->
+     (t_pc x = PCtxCalled ->
+        (fclosed s = true -> (exists s', step s (TPollF t) = Some s') /\ step s (TPollD t) = None) /\
+        (fclosed s = false -> (exists s', step s (TPollD t) = Some s') /\ step s (TPollF t) = None)) /\
+     (t_pc x = PCtxSel -> fclosed s = true -> exists s', step s (TSelF t) = Some s') /\
+     (forall c, t_pc x = PCtxSel -> t_kind x = KWaitCtx c -> ctx_done s c = true ->
                 exists s', step s (TSelCtx t) = Some s') /\
      (t_pc x = PRecvd -> exists s', step s (TRead t) = Some s') /\
      (forall v, t_pc x = PRead v -> t_kind x = KWait -> exists s', step s (LRetWait t v) = Some s') /\
      (forall v c, t_pc x = PRead v -> t_kind x = KWaitCtx c -> exists s', step s (LRetWaitCtx t v false) = Some s') /\
      (forall c, t_pc x = PCtxErr -> t_kind x = KWaitCtx c -> exists s', step s (LRetWaitCtx t 0%Z true) = Some s')) /\
   (* (e) with a single Fill nothing panics *)
-  (forall t x, nth_error (ths s) t = Some x -> t_pc x <> PFillPanic).
+  (at_most_one_fill cfg -> forall t x, nth_error (ths s) t = Some x -> t_pc x <> PFillPanic) /\
+  (* (f) exactly one Fill wins *)
+  ((ffilled s = true <-> fwinner s <> None) /\ (fclosed s = true -> ffilled s = true) /\
+   (forall tw, fwinner s = Some tw -> exists xw, nth_error (ths s) tw = Some xw /\ is_fill (t_kind xw) = true)) /\
+  (forall t s', qstep s (TCas t) = Some s' ->
+     exists x, nth_error (ths s) t = Some x /\ t_pc x = PFillCalled /\
+     ((ffilled s = false /\ fwinner s = None /\ ffilled s' = true /\ fwinner s' = Some t /\
+       nth_error (ths s') t = Some (set_pc x PFillWon)) \/
+      (ffilled s = true /\ (exists tw, fwinner s = Some tw /\ tw <> t) /\ ffilled s' = true /\
+       fwinner s' = fwinner s /\ nth_error (ths s') t = Some (set_pc x PFillPanic))) /\
+     fx s' = fx s /\ fclosed s' = fclosed s) /\
+  (forall t x, nth_error (ths s) t = Some x ->
+     (t_pc x = PFillWon \/ t_pc x = PFillWritten \/ t_pc x = PFillClosed -> fwinner s = Some t) /\
+     (t_pc x = PFillPanic -> exists tw, fwinner s = Some tw /\ tw <> t)) /\
+  (forall l s', qstep s l = Some s' -> fx s' <> fx s ->
+     exists tw xw, l = TWrite tw /\ fwinner s = Some tw /\ nth_error (ths s) tw = Some xw /\
+                   t_kind xw = KFill (fx s') /\ fclosed s = false) /\
+  (forall t s', qstep s (LRetFill t) = Some s' ->
+     fwinner s = Some t /\ fclosed s = true /\ exists x, nth_error (ths s) t = Some x /\ t_kind x = KFill (fx s)) /\
+  (forall t s', qstep s (LPanicFill t) = Some s' -> exists tw, fwinner s = Some tw /\ tw <> t).
 
 Theorem future_correct cfg nctx ng s :
-  at_most_one_fill cfg -> reachable qstep (init cfg nctx ng) s -> future_stmt s.
+  reachable qstep (init cfg nctx ng) s -> future_stmt cfg s.
 Proof.
-  intros H1 Hr. pose proof (fut_inv cfg nctx ng s H1 Hr) as HI. unfold future_stmt.
+  intros Hr. pose proof (fut_inv cfg nctx ng s Hr) as HI. pose proof (fut_kinds cfg nctx ng s Hr) as HK.
+  unfold future_stmt.
   split; [intros t v s' H; eapply ret_wait; eauto|].
   split; [intros t v e s' H; eapply ret_waitctx; eauto|].
   split.
-  { intros Hcl. split; [apply closed_value; auto|]. intros l s' H. eapply filled_stable; eauto. }
+  { intros Hcl. split; [apply closed_value; auto|].
+    split; [intros l s' H; eapply filled_stable; eauto | intros ls s' H; eapply filled_stable_run; eauto]. }
   split.
   { intros t x Hx. destruct (after_select_progress s t x Hx) as (P1 & P2 & P3 & P4).
+    destruct (fill_progress s t x Hx) as (Q1 & Q2 & Q3 & Q4 & Q5).
+    split; [exact Q1|]. split.
+    { intros Hp. apply Q2; [exact Hp|]. pose proof (f_ths s HI t x Hx) as Hok. unfold th_ok in Hok.
+      rewrite Hp in Hok. tauto. }
+    split; [exact Q3|]. split; [exact Q4|]. split; [exact Q5|].
     split; [intros; eapply wait_progress; eauto|].
+    split; [intros; eapply waitctx_progress_poll; eauto|].
     split; [intros; eapply waitctx_progress_fill; eauto|].
     split; [intros; eapply waitctx_progress_ctx; eauto|].
     auto. }
-  intros t x Hx. eapply no_panic; eauto.
+  split; [intros H1 t x Hx; eapply no_panic; eauto|].
+  split.
+  { split; [apply filled_iff_winner; exact HI|]. split; [apply closed_filled; exact HI|].
+    intros tw Hw. destruct (f_win_some s HI tw Hw) as [_ H]. exact H. }
+  split; [intros t s' H; eapply cas_step; eauto|].
+  split; [intros t x Hx; eapply winner_pcs; eauto|].
+  split; [intros l s' H Hne; eapply only_winner_writes; eauto|].
+  split; [intros t s' H; eapply ret_fill; eauto | intros t s' H; eapply panic_fill; eauto].
 Qed.
+
+(* ---- the code before the repair ([Fut.step_orig]) violates the property ---- *)
+
+(* (i) the original Fill (f.x = x; close(f.c)): with two Fills, a Wait has returned the first value,
+   the second Fill then overwrites f.x (although the channel is closed) before it panics, and a later
+   Wait returns the second value.  So for the original code clauses (a) and (c) of [future_stmt] are false. *)
+Definition orig_fill_cfg : list (option nat * kind) :=
+  [(None, KFill 1%Z); (None, KFill 2%Z); (None, KWait); (None, KWait)].
+Definition orig_fill_run1 : list lab :=
+  [LSpawn 0; LSpawn 1; LSpawn 2; LSpawn 3; LCallFill 0 1%Z; TWrite 0; TCloseF 0; LRetFill 0;
+   LCallWait 2; TRecv 2; TRead 2; LRetWait 2 1%Z; LCallFill 1 2%Z].
+Definition orig_fill_run2 : list lab :=
+  [TCloseF 1; LPanicFill 1; LCallWait 3; TRecv 3; TRead 3; LRetWait 3 2%Z].
+
+Theorem orig_fill_refuted :
+  exists s s1 s2,
+    run step_orig (init orig_fill_cfg 0 0) orig_fill_run1 = Some s /\
+    fclosed s = true /\ fx s = 1%Z /\
+    step_orig s (TWrite 1) = Some s1 /\ fx s1 = 2%Z /\          (* the value changes after the future was filled *)
+    run step_orig s1 orig_fill_run2 = Some s2 /\                 (* ... and Wait 3 returns 2 after Wait 2 returned 1 *)
+    GoLTSProofs.trace lab lab vis (orig_fill_run1 ++ TWrite 1 :: orig_fill_run2) =
+      [LSpawn 0; LSpawn 1; LSpawn 2; LSpawn 3; LCallFill 0 1%Z; LRetFill 0; LCallWait 2; LRetWait 2 1%Z;
+       LCallFill 1 2%Z; LPanicFill 1; LCallWait 3; LRetWait 3 2%Z] /\
+    (* the repaired model has no such run *)
+    accepts_history orig_fill_cfg 0 0
+      [LSpawn 0; LSpawn 1; LSpawn 2; LSpawn 3; LCallFill 0 1%Z; LRetFill 0; LCallWait 2; LRetWait 2 1%Z;
+       LCallFill 1 2%Z; LPanicFill 1; LCallWait 3; LRetWait 3 2%Z] = false.
+Proof. eexists. eexists. eexists. vm_compute. repeat split; reflexivity. Qed.
+
+(* (ii) the original WaitContext (only the two-arm select): called after Fill has returned, with a context
+   that is done, it may take the ctx.Done() arm and return the context error. *)
+Definition orig_wctx_cfg : list (option nat * kind) := [(None, KFill 7%Z); (None, KWaitCtx 0)].
+Definition orig_wctx_run1 : list lab :=
+  [LSpawn 0; LCallFill 0 7%Z; TWrite 0; TCloseF 0; LRetFill 0; LCancel 0; TCancelEff 0; LSpawn 1].
+Definition orig_wctx_run2 : list lab := [TSelCtx 1].
+
+Theorem orig_waitcontext_refuted :
+  exists s s1 s2 s3,
+    run step_orig (init orig_wctx_cfg 1 0) orig_wctx_run1 = Some s /\
+    fclosed s = true /\ fx s = 7%Z /\
+    step_orig s (LCallWaitCtx 1 0) = Some s1 /\                  (* the call starts after the future was filled *)
+    run step_orig s1 orig_wctx_run2 = Some s2 /\
+    step_orig s2 (LRetWaitCtx 1 0%Z true) = Some s3 /\           (* ... and returns the context error *)
+    (* the repaired model has no such run *)
+    accepts_history orig_wctx_cfg 1 0
+      [LSpawn 0; LCallFill 0 7%Z; LRetFill 0; LCancel 0; LSpawn 1; LCallWaitCtx 1 0; LRetWaitCtx 1 0%Z true] = false.
+Proof. eexists. eexists. eexists. eexists. vm_compute. repeat split; reflexivity. Qed.
 
 End FutP.
 
